@@ -49,6 +49,20 @@ pub fn run(tier: Tier) -> i32 {
             }
         }
     }
+    // corrupt only after the 4096-byte window has wrapped twice: a copy whose distance is valid for the bytes produced
+    // but not for the dictionary (just above it, within dictionary + cursor, far above)
+    for it in corpus::valid_items(ctx.seed, true).into_iter().filter(|it| it.name == "wraps-4096-window+size") {
+        for d in [4097u32, 4200, 8000] {
+            let mut prog = it.prog.clone();
+            prog.extend([crate::refmodel::enc::Sym::M(d, 5), crate::refmodel::enc::Sym::L(0x11)]);
+            let e = crate::refmodel::enc::encode(it.lc, it.lp, it.pb, 1 << 20, &prog);
+            if e.bad.is_some() {
+                continue;
+            }
+            let bytes = crate::refmodel::enc::lzma_file(it.lc, it.lp, it.pb, 4096, Some(e.expect.len() as u64), &e.payload);
+            extra.push(c05::Input { label: format!("{} + a copy at distance {} (dictionary 4096, {} bytes produced)", it.name, d, e.expect.len() - 6), bytes, opts: crate::cases::Opts::default(), max_sym: 0 });
+        }
+    }
     let mut k = 0usize;
     for i in all.iter().filter(|i| i.label.contains(" byte ")) {
         k += 1;
